@@ -54,7 +54,7 @@ func c10Alphabet(k int) []c10Sym {
 	a = append(a, c10Sym{"write-over-max", 0, "B"}, c10Sym{"app-over-max", -1, "B"}, c10Sym{"write-over-max", 1, "B"})
 	// the connection sends a read whose application callback blocks, then resets its socket: the accessory cannot
 	// notice the reset before the handler returns, so a dead connection stays registered while later events happen
-	a = append(a, c10Sym{"hang-and-reset", k - 1, ""})
+	a = append(a, c10Sym{"hang-and-reset", 0, ""}, c10Sym{"hang-and-reset", k - 1, ""})
 	// eight changes in a row (the order in which hc walks its connections is random per change)
 	a = append(a, c10Sym{"app-burst", -1, "A"})
 	return a
